@@ -818,9 +818,21 @@ class GroupBy:
         self, mask: Union[None, slice, np.ndarray]
     ) -> Tuple[Union[np.ndarray, pa.ChunkedArray], int, List]:
         """ """
+        if (
+            self.key_is_chunked
+            and mask is not None
+            and not isinstance(mask, slice)
+            and not pd.api.types.is_bool_dtype(mask)
+        ):
+            # integer positions (order, repeats) cannot be split across key chunks:
+            # work on the unified codes like for contiguous keys
+            self._unify_group_key_chunks()
+
         group_key = self.group_ikey
         first_chunk_in = 0
-        mask_chunks = [None] * len(self._group_key_lengths)
+        mask_chunks = (
+            [None] * len(self._group_key_lengths) if self.key_is_chunked else [None]
+        )
 
         if isinstance(mask, slice):
             first_chunk_in = self._find_first_chunk_in_slice(mask)
